@@ -14444,71 +14444,78 @@ func ruleBudgetEveryElement(c *Ctx) {
 	}
 	f := c.P.NewFuncCFG(fd)
 	info := fd.Pkg.TypesInfo
-	var budget types.Object
+	// the budgets: the *int parameters (the element limit is charged at the top of every iteration, the comparable
+	// size per kind of element); each of them has to satisfy the rule - they are told apart by position, not by name
+	var budgets []*types.Var
 	sig := fd.Obj.Type().(*types.Signature)
 	for i := 0; i < sig.Params().Len(); i++ {
-		if strings.Contains(strings.ToLower(sig.Params().At(i).Name()), "comparable") {
-			budget = sig.Params().At(i)
+		if pt, ok := sig.Params().At(i).Type().(*types.Pointer); ok {
+			if bt, ok := pt.Elem().Underlying().(*types.Basic); ok && bt.Kind() == types.Int {
+				budgets = append(budgets, sig.Params().At(i))
+			}
 		}
 	}
-	if budget == nil {
-		c.Lost("budget-every-element.shape", "equalStruct has no comparable-size budget parameter")
+	if len(budgets) < 2 {
+		c.Lost("budget-every-element.shape", "equalStruct no longer takes the element limit and the comparable-size budget as *int parameters")
 		return
 	}
-	var charges, recs []site
-	for _, b := range f.G.Blocks {
-		if !b.Live {
+	for bi, budget := range budgets {
+		var charges, recs []site
+		for _, b := range f.G.Blocks {
+			if !b.Live {
+				continue
+			}
+			for i, nd := range b.Nodes {
+				inspectNoLit(nd, func(x ast.Node) bool {
+					switch y := x.(type) {
+					case *ast.IncDecStmt:
+						if st, ok := ast.Unparen(y.X).(*ast.StarExpr); ok && y.Tok == token.DEC {
+							if id, ok := ast.Unparen(st.X).(*ast.Ident); ok && info.ObjectOf(id) == budget {
+								charges = append(charges, site{b, i, nd, nil})
+							}
+						}
+					case *ast.CallExpr:
+						fn := calleeFunc(info, y)
+						if fn == nil {
+							return true
+						}
+						passes := false
+						for _, a := range y.Args {
+							if id, ok := ast.Unparen(a).(*ast.Ident); ok && info.ObjectOf(id) == budget {
+								passes = true
+							}
+						}
+						switch {
+						case fn == fd.Obj:
+							recs = append(recs, site{b, i, nd, y})
+						case passes:
+							charges = append(charges, site{b, i, nd, y}) // a callee that is handed the budget charges it itself
+						}
+					}
+					return true
+				})
+			}
+		}
+		var loop *Loop
+		for _, l := range f.Loops() {
+			l := l
+			if containsNode(l.Stmt, recs0(recs)) {
+				loop = &l
+			}
+		}
+		key := fmt.Sprintf("budget-every-element#%d", bi+1)
+		if loop == nil || len(recs) == 0 || len(charges) == 0 {
+			c.Lost(key+".shape", "equalStruct no longer recurses inside an element loop that charges its budgets")
 			continue
 		}
-		for i, nd := range b.Nodes {
-			inspectNoLit(nd, func(x ast.Node) bool {
-				switch y := x.(type) {
-				case *ast.IncDecStmt:
-					if st, ok := ast.Unparen(y.X).(*ast.StarExpr); ok && y.Tok == token.DEC {
-						if id, ok := ast.Unparen(st.X).(*ast.Ident); ok && info.ObjectOf(id) == budget {
-							charges = append(charges, site{b, i, nd, nil})
-						}
-					}
-				case *ast.CallExpr:
-					fn := calleeFunc(info, y)
-					if fn == nil {
-						return true
-					}
-					passes := false
-					for _, a := range y.Args {
-						if id, ok := ast.Unparen(a).(*ast.Ident); ok && info.ObjectOf(id) == budget {
-							passes = true
-						}
-					}
-					switch {
-					case fn == fd.Obj:
-						recs = append(recs, site{b, i, nd, y})
-					case passes:
-						charges = append(charges, site{b, i, nd, y}) // a callee that is handed the budget charges it itself
-					}
-				}
-				return true
-			})
+		targets := append([]site{}, recs...)
+		targets = append(targets, site{loop.Head, 0, loop.Stmt, nil})
+		ok, path := f.mustBefore([]*cfg.Block{loop.Body}, targets, charges, nil)
+		if ok {
+			c.OK(key, c.P.Pos(loop.Stmt.Pos()), "every pair of elements is charged before it is descended into or passed")
+		} else {
+			c.Fail(key, c.P.Pos(loop.Stmt.Pos()), fmt.Sprintf("Struct.equalStruct can descend into a pair of elements, or go on to the next pair, without charging its budget parameter #%d (%s): nested structures are compared for free, so a comparison the budget is meant to stop with a FAULT halts with an answer - another outcome than the specification's, and unbounded work", bi+1, strings.Join(path, " -> ")))
 		}
-	}
-	var loop *Loop
-	for _, l := range f.Loops() {
-		l := l
-		if containsNode(l.Stmt, recs0(recs)) {
-			loop = &l
-		}
-	}
-	if loop == nil || len(recs) == 0 || len(charges) == 0 {
-		c.Lost("budget-every-element.shape", "equalStruct no longer recurses inside an element loop that charges the budget")
-		return
-	}
-	targets := append([]site{}, recs...)
-	targets = append(targets, site{loop.Head, 0, loop.Stmt, nil})
-	ok, path := f.mustBefore([]*cfg.Block{loop.Body}, targets, charges, nil)
-	if ok {
-		c.OK("budget-every-element", c.P.Pos(loop.Stmt.Pos()), "every pair of elements is charged before it is descended into or passed")
-	} else {
-		c.Fail("budget-every-element", c.P.Pos(loop.Stmt.Pos()), "Struct.equalStruct can descend into a pair of elements, or go on to the next pair, without charging the comparable-size budget ("+strings.Join(path, " -> ")+"): nested structures are compared for free, so a comparison the budget is meant to stop with a FAULT halts with an answer - another outcome than the specification's, and unbounded work")
 	}
 }
 
